@@ -348,6 +348,25 @@ def run_rsa_construct(env, sh):
     env.check(env.eqv(ok, spec), 'RSA.construct accepts exactly the consistent tuples (n = p*q, primes, e*d = 1 mod lcm, u = p^-1 mod q, ranges)')
 
 
+def run_rsa_public(env, sh):
+    """RSA.construct((n, e)) with consistency checking, every (n, e) of the width: accepted exactly for odd n, 1 < e < n, gcd(e, n) = 1"""
+    from Crypto.PublicKey import RSA
+    W = sh['W']
+    n, e = env.int('n', W), env.int('e', W)
+    undo = _small_int_shims(env)
+    try:
+        try:
+            key = RSA.construct((n, e), consistency_check=True)
+            ok = True
+        except ValueError:
+            ok = False
+    finally:
+        undo()
+    env.check(env.eqv(ok, env.And(n % 2 == 1, e > 1, e < n, _coprime(env, n, e, W))), 'RSA.construct((n, e)) accepts exactly odd n with 1 < e < n and gcd(e, n) = 1')
+    if ok:
+        env.check(not key.has_private() and _iv(key.n) == n and _iv(key.e) == e, 'the public key holds (n, e)')
+
+
 def run_dsa_construct(env, sh):
     from Crypto.PublicKey import DSA
     w = sh['w']
@@ -419,7 +438,7 @@ HARNESSES = dict(ecc_coord_range=Harness('ecc_coord_range', run_ecc_coord_range)
                  rsa_construct=Harness('rsa_construct', run_rsa_construct, max_paths=200000, budget_s=3000),
                  dsa_construct=Harness('dsa_construct', run_dsa_construct, max_paths=200000, budget_s=3000),
                  elgamal_construct=Harness('elgamal_construct', run_elgamal_construct, max_paths=200000, budget_s=3000),
-                 ec_new_point_c=ecc_c.HARNESS_NEW_POINT)
+                 ec_new_point_c=ecc_c.HARNESS_NEW_POINT, rsa_public=Harness('rsa_public', run_rsa_public, max_paths=100000, budget_s=900))
 
 
 def shapes(tier):
@@ -450,6 +469,7 @@ def shapes(tier):
     for w in (3,) if not th else (3, 4):
         jobs.append(('rsa_construct', dict(w=w)))
     jobs.append(('rsa_construct', dict(w=3, tie_n=False)))
+    jobs.append(('rsa_public', dict(W=5)))          # W = 7: no answer in 15 min (one gcd trace per path): outside
     for w in (5,):      # w = 6: z3 answers unknown on the assumptions already (measured): outside
         jobs.append(('dsa_construct', dict(w=w, priv=True)))
         jobs.append(('dsa_construct', dict(w=w, priv=False)))
@@ -461,7 +481,7 @@ def shapes(tier):
 
 BOUNDS = dict(ecc="5 NIST curves + Ed25519 + Ed448 + Curve25519 + Curve448; private scalars: every integer of up to order_bits + 8 bits and small negatives; "
               "points: P + i*p, i < 4, for every public key P of the abstract group; Montgomery x: every value of up to 8n + 3 bits",
-              rsa="every tuple (n,e,d,p,q,u) with p, q below 2^3 (thorough 2^4) and the others below 2^(2w)",
+              rsa="every tuple (n,e,d,p,q,u) with p, q below 2^3 (thorough 2^4) and the others below 2^(2w); public keys: every (n, e) below 2^5",
               dsa="every tuple (p,q,g,y,x) with p below 2^5; ElGamal (thorough only): every tuple (p,g,y,x) below 2^3",
               outside=["generate() loops and FIPS 186-4 size margins on real sizes", "the probabilistic primality tests (replaced by the exact table at reduced width)",
                        "factor recovery from (n,e,d)", "the on-curve computation of the C code for all coordinates (abstract predicate; ec_new_point_c runs the real ec_ws_new_point on a list of concrete candidates incl. x = 0 / y = 0)", "ElGamal.construct (being added)",
